@@ -23,7 +23,14 @@ use vcore::{Ctx, Level, Stats, catch};
 pub const BLOCK: u64 = 512;
 const MIB: usize = 1 << 20;
 const RLIMIT_AS: u64 = 4 << 30;
-const WATCHDOG: Duration = Duration::from_secs(20);
+/// parent-side wall-clock backstop per case (a deterministic spin is caught much earlier by the
+/// worker's CPU-time monitor; wall-clock time says little on a loaded machine)
+const WALL_WATCHDOG: Duration = Duration::from_secs(180);
+/// CPU time one case may consume in the sweep before it is set aside as a hang suspect
+const CPU_LIMIT_SHORT_MS: u64 = 500;
+/// CPU time a hang suspect gets when it is re-run alone
+const CPU_LIMIT_LONG_MS: u64 = 10_000;
+const CPU_EXIT: i32 = 87;
 
 /// bytes one read may hold: max(64 MiB, 4096 x input length) plus 1 MiB of slack, so that the
 /// pre-allocation cap the IPC stream reader documents (exactly 64 MiB, `MAX_PREALLOC_BYTES`) together
@@ -303,13 +310,71 @@ pub fn order_key(entry_len: usize, idx: u64) -> u64 {
     ((entry_len as u64) << 40) | (idx & ((1 << 40) - 1))
 }
 
-fn worker(ctx: &Ctx, lo: u64, hi: u64, skip: &BTreeSet<u64>) -> ! {
+/// Watches the CPU time the main thread spends inside one case; ends the process with `H idx ms`
+/// when it exceeds the limit (a deterministic spin burns CPU, a loaded machine only burns wall-clock).
+fn spawn_cpu_monitor(limit_ms: u64) {
+    let mut cid: libc::clockid_t = 0;
+    if unsafe { libc::pthread_getcpuclockid(libc::pthread_self(), &mut cid) } != 0 {
+        eprintln!("MACHINERY: pthread_getcpuclockid failed");
+        std::process::exit(2);
+    }
+    std::thread::spawn(move || {
+        let cpu_ms = || {
+            let mut ts = libc::timespec { tv_sec: 0, tv_nsec: 0 };
+            unsafe { libc::clock_gettime(cid, &mut ts) };
+            ts.tv_sec as u64 * 1000 + ts.tv_nsec as u64 / 1_000_000
+        };
+        let mut seen = u64::MAX;
+        let mut since = 0u64;
+        loop {
+            std::thread::sleep(Duration::from_millis(50));
+            let idx = meter::CASE_IDX.load(Ordering::Acquire);
+            let now = cpu_ms();
+            if idx != seen {
+                seen = idx;
+                since = now;
+                continue;
+            }
+            if idx != u64::MAX && now.saturating_sub(since) > limit_ms && flush_partial(idx) {
+                println!("H {idx} {}", now - since);
+                unsafe { libc::_exit(CPU_EXIT) }
+            }
+        }
+    });
+}
+
+/// results of the block in progress: (block start, accumulator). Locked by the worker's main thread
+/// only between cases, so the refusal path (main thread inside the allocator during a case) and the
+/// CPU monitor thread can take it to flush a partial block before ending the process.
+static ACC: Mutex<Option<(u64, BlockAcc)>> = Mutex::new(None);
+
+/// Prints the results of the cases completed so far in the current block as an `S` line ending at
+/// `idx` (exclusive). Returns false (and prints nothing) if `idx` is no longer the case in flight.
+pub fn flush_partial(idx: u64) -> bool {
+    let mut g = match ACC.lock() {
+        Ok(g) => g,
+        Err(p) => p.into_inner(),
+    };
+    if meter::CASE_IDX.load(Ordering::Acquire) != idx {
+        return false;
+    }
+    if let Some((lo, acc)) = g.take() {
+        if idx >= lo {
+            println!("S {}", acc.to_json(lo, idx));
+        }
+    }
+    // keep the lock: the process is about to end and the main thread must not record anything more
+    std::mem::forget(g);
+    true
+}
+
+fn worker(ctx: &Ctx, lo: u64, hi: u64, skip: &BTreeSet<u64>, cpu_limit_ms: u64) -> ! {
+    spawn_cpu_monitor(cpu_limit_ms);
     let plan = plan(!ctx.quick());
     let pristine = pristine_of(&plan);
     let tier = if ctx.quick() { "quick" } else { "thorough" };
     let hi = hi.min(plan.total);
-    let mut acc = BlockAcc::default();
-    let mut block_lo = lo;
+    *ACC.lock().unwrap() = Some((lo, BlockAcc::default()));
     let mut cached: Option<(usize, u64, Mutated, usize)> = None;
     for idx in lo..hi {
         if !skip.contains(&idx) {
@@ -323,10 +388,12 @@ fn worker(ctx: &Ctx, lo: u64, hi: u64, skip: &BTreeSet<u64>) -> ! {
             let rd = job.readers[r];
             let e = &plan.corpus[*ei];
             println!("@ {idx}");
-            meter::CASE_IDX.store(idx, Ordering::Relaxed);
+            meter::CASE_IDX.store(idx, Ordering::Release);
             let ev = evaluate(rd, e, &m.bytes, &m.segs, pristine.get(&(*ei, rd)));
-            meter::CASE_IDX.store(u64::MAX, Ordering::Relaxed);
+            meter::CASE_IDX.store(u64::MAX, Ordering::Release);
             let nontrivial = m.bytes != e.bytes;
+            let mut g = ACC.lock().unwrap();
+            let acc = &mut g.as_mut().unwrap().1;
             let s = acc.subs.entry(job.sub.clone()).or_default();
             s.0 += 1;
             s.1 += nontrivial as u64;
@@ -354,9 +421,10 @@ fn worker(ctx: &Ctx, lo: u64, hi: u64, skip: &BTreeSet<u64>) -> ! {
             }
         }
         if (idx + 1) % BLOCK == 0 || idx + 1 == hi {
-            println!("S {}", acc.to_json(block_lo, idx + 1));
-            acc = BlockAcc::default();
-            block_lo = idx + 1;
+            let mut g = ACC.lock().unwrap();
+            let (blo, acc) = g.take().unwrap();
+            println!("S {}", acc.to_json(blo, idx + 1));
+            *g = Some((idx + 1, BlockAcc::default()));
         }
     }
     println!("DONE");
@@ -397,106 +465,245 @@ fn merge_block(st: &mut Stats, v: &Value, peak: &mut u64) {
     *peak = (*peak).max(v["peak"].as_u64().unwrap_or(0));
 }
 
-/// Runs [lo, hi) to completion with as many worker restarts as needed. Returns the merged stats.
-fn run_unit(ctx: &Ctx, plan: &Plan, exe: &std::path::Path, lo: u64, hi: u64, peak: &mut u64) -> Stats {
+
+/// A case that ended its worker instead of returning.
+#[derive(Clone, Debug)]
+enum Abnormal {
+    /// the allocation meter refused a request: (requested, held, raw-or-resolved site token)
+    Alloc { req: u64, held: i64, token: String },
+    /// CPU-time limit of the sweep hit (to be confirmed with the long limit)
+    CpuLimit { ms: u64 },
+    /// wall-clock watchdog of the parent expired
+    WallLimit,
+    /// any other death (signal / exit code, stderr tail)
+    Died { desc: String },
+}
+
+struct UnitResult {
+    st: Stats,
+    /// cases that hit the short CPU limit: to be re-run with the long limit
+    suspects: Vec<u64>,
+}
+
+/// Runs one worker over [lo, hi) with `skip`; returns committed stats, the committed upper bound and how
+/// the worker ended for the case in flight (if it did not complete).
+fn run_once(ctx: &Ctx, exe: &std::path::Path, lo: u64, hi: u64, skip: &BTreeSet<u64>, cpu_limit_ms: u64, peak: &mut u64) -> (Stats, u64, Option<(u64, Abnormal)>, bool) {
     let tier = if ctx.quick() { "quick" } else { "thorough" };
+    let mut args: Vec<String> = vec!["C08".into(), "--tier".into(), tier.into(), "--worker".into(), lo.to_string(), hi.to_string(), "--cpu-limit".into(), cpu_limit_ms.to_string()];
+    let sk: Vec<String> = skip.iter().filter(|&&s| s >= lo && s < hi).map(|s| s.to_string()).collect();
+    if !sk.is_empty() {
+        args.push("--skip".into());
+        args.push(sk.join(","));
+    }
+    let mut committed = lo;
+    let mut st = Stats::new();
+    let mut last_alloc: Option<(u64, u64, i64, String)> = None;
+    let mut last_cpu: Option<(u64, u64)> = None;
+    let mut garbled = false;
+    let end = run_worker(exe, &args, Some(RLIMIT_AS), WALL_WATCHDOG, |l| {
+        if let Some(j) = l.strip_prefix("S ") {
+            match vcore::serde_json::from_str::<Value>(j) {
+                Ok(v) => {
+                    merge_block(&mut st, &v, peak);
+                    committed = v["hi"].as_u64().unwrap_or(committed);
+                }
+                Err(_) => garbled = true,
+            }
+        } else if let Some(a) = l.strip_prefix("A ") {
+            let mut it = a.splitn(4, ' ');
+            let idx = it.next().and_then(|x| x.parse().ok()).unwrap_or(u64::MAX);
+            let req = it.next().and_then(|x| x.parse().ok()).unwrap_or(0);
+            let held = it.next().and_then(|x| x.parse().ok()).unwrap_or(0);
+            let site = it.next().unwrap_or("unknown").trim().to_string();
+            last_alloc = Some((idx, req, held, site));
+        } else if let Some(h) = l.strip_prefix("H ") {
+            let mut it = h.split(' ');
+            let idx = it.next().and_then(|x| x.parse().ok()).unwrap_or(u64::MAX);
+            let ms = it.next().and_then(|x| x.parse().ok()).unwrap_or(0);
+            last_cpu = Some((idx, ms));
+        } else if !l.is_empty() {
+            garbled = true;
+        }
+    });
+    match end {
+        WorkerEnd::Completed => (st, hi, None, garbled),
+        WorkerEnd::Hung { in_flight } => {
+            let idx = in_flight.filter(|&i| i >= committed && i < hi);
+            (st, committed, idx.map(|i| (i, Abnormal::WallLimit)), garbled || idx.is_none())
+        }
+        WorkerEnd::Died { desc, in_flight } => {
+            let idx = in_flight.filter(|&i| i >= committed && i < hi);
+            let refused = desc.contains(&format!("code=Some({})", meter::REFUSE_EXIT));
+            let cpu = desc.contains(&format!("code=Some({})", CPU_EXIT));
+            let ab = match idx {
+                None => None,
+                Some(i) => match (&last_alloc, &last_cpu) {
+                    (Some((ai, req, held, tok)), _) if refused && *ai == i => Some((i, Abnormal::Alloc { req: *req, held: *held, token: tok.clone() })),
+                    (_, Some((ci, ms))) if cpu && *ci == i => Some((i, Abnormal::CpuLimit { ms: *ms })),
+                    // exit code of the meter / monitor without a matching line: a race with the next case; retry
+                    _ if refused || cpu => None,
+                    _ => Some((i, Abnormal::Died { desc })),
+                },
+            };
+            let g = ab.is_none();
+            (st, committed, ab, garbled || g)
+        }
+    }
+}
+
+fn abnormal_violation(ctx: &Ctx, plan: &Plan, exe: &std::path::Path, st: &mut Stats, idx: u64, ab: &Abnormal) {
+    let tier = if ctx.quick() { "quick" } else { "thorough" };
+    let (j, k, r) = plan.locate(idx);
+    let (m, ei) = plan.input(j, k);
+    let job = &plan.jobs[j];
+    let rd = job.readers[r];
+    let e = &plan.corpus[ei];
+    let order = order_key(e.bytes.len(), idx);
+    let (fp, msg, class) = match ab {
+        Abnormal::Alloc { req, held, token } => {
+            let site = resolve_site(ctx, exe, idx, token);
+            (
+                format!("c08:{}:alloc@{}", rd.name(), site),
+                format!("allocation of {req} bytes requested ({held} bytes then held by the read) for a {}-byte input; bound {} bytes; requesting call site {site}", m.bytes.len(), alloc_bound(m.bytes.len())),
+                "alloc-refused",
+            )
+        }
+        Abnormal::CpuLimit { ms } => (format!("c08:{}:hang", rd.name()), format!("no result after {ms} ms of CPU time for a {}-byte input (confirmed with the {CPU_LIMIT_LONG_MS} ms limit for the representative case)", m.bytes.len()), "hang"),
+        Abnormal::WallLimit => (format!("c08:{}:hang", rd.name()), format!("no result within {} s wall-clock for a {}-byte input", WALL_WATCHDOG.as_secs(), m.bytes.len()), "hang"),
+        Abnormal::Died { desc } => {
+            let sig = desc.split_whitespace().take(2).collect::<Vec<_>>().join(" ");
+            (format!("c08:{}:died:{}", rd.name(), vcore::strip_digits(&sig)), format!("reader process died: {desc}"), "died")
+        }
+    };
+    st.add(&job.sub, 1, (m.bytes != e.bytes) as u64);
+    st.outcome(&format!("{}|{}", rd.name(), class));
+    st.violate(order, fp, msg, || plan.case_json(idx, tier));
+}
+
+/// Runs [lo, hi) to completion with as many worker restarts as needed.
+fn run_unit(ctx: &Ctx, plan: &Plan, exe: &std::path::Path, lo: u64, hi: u64, peak: &mut u64) -> UnitResult {
     let mut st = Stats::new();
     let mut skip: BTreeSet<u64> = BTreeSet::new();
+    let mut suspects = vec![];
     let mut cur = lo;
     let mut restarts = 0u64;
+    let mut glitches = 0u64;
     while cur < hi {
-        let mut args: Vec<String> = vec!["C08".into(), "--tier".into(), tier.into(), "--worker".into(), cur.to_string(), hi.to_string()];
-        if !skip.is_empty() {
-            args.push("--skip".into());
-            args.push(skip.iter().filter(|&&s| s >= cur).map(|s| s.to_string()).collect::<Vec<_>>().join(","));
-        }
-        let mut committed = cur;
-        let mut block_stats = Stats::new();
-        let mut last_alloc: Option<(u64, u64, i64, String)> = None;
-        let mut machinery: Option<String> = None;
-        let end = run_worker(exe, &args, Some(RLIMIT_AS), WATCHDOG, |l| {
-            if let Some(j) = l.strip_prefix("S ") {
-                match vcore::serde_json::from_str::<Value>(j) {
-                    Ok(v) => {
-                        merge_block(&mut block_stats, &v, peak);
-                        committed = v["hi"].as_u64().unwrap_or(committed);
-                    }
-                    Err(e) => machinery = Some(format!("bad block line: {e}")),
+        let (s, committed, ab, glitch) = run_once(ctx, exe, cur, hi, &skip, CPU_LIMIT_SHORT_MS, peak);
+        st.merge(s);
+        cur = committed;
+        match ab {
+            Some((idx, ab)) => {
+                restarts += 1;
+                if matches!(ab, Abnormal::CpuLimit { .. }) {
+                    suspects.push(idx);
+                } else {
+                    abnormal_violation(ctx, plan, exe, &mut st, idx, &ab);
                 }
-            } else if let Some(a) = l.strip_prefix("A ") {
-                let mut it = a.splitn(4, ' ');
-                let idx = it.next().and_then(|x| x.parse().ok()).unwrap_or(u64::MAX);
-                let req = it.next().and_then(|x| x.parse().ok()).unwrap_or(0);
-                let held = it.next().and_then(|x| x.parse().ok()).unwrap_or(0);
-                let site = it.next().unwrap_or("unknown").trim().to_string();
-                last_alloc = Some((idx, req, held, site));
-            }
-        });
-        if let Some(m) = machinery {
-            eprintln!("MACHINERY: {m}");
-            std::process::exit(2);
-        }
-        st.merge(block_stats);
-        match end {
-            WorkerEnd::Completed => {
-                cur = hi;
-            }
-            WorkerEnd::Died { desc, in_flight } => {
-                restarts += 1;
-                let Some(idx) = in_flight.filter(|&i| i >= committed && i < hi) else {
-                    eprintln!("MACHINERY: worker [{cur},{hi}) died outside a case: {desc}");
-                    std::process::exit(2);
-                };
-                let (j, k, r) = plan.locate(idx);
-                let (m, ei) = plan.input(j, k);
-                let job = &plan.jobs[j];
-                let rd = job.readers[r];
-                let e = &plan.corpus[ei];
-                let order = order_key(e.bytes.len(), idx);
-                let refused = desc.contains(&format!("code=Some({})", meter::REFUSE_EXIT));
-                let (fp, msg, class) = match (&last_alloc, refused) {
-                    (Some((aidx, req, held, site)), true) if *aidx == idx => {
-                        let site = &resolve_site(ctx, exe, idx, site);
-                        (
-                        format!("c08:{}:alloc@{}", rd.name(), site),
-                        format!("allocation of {req} bytes requested ({held} bytes held by the read) for a {}-byte input; bound {} bytes; requesting call site {site}", m.bytes.len(), alloc_bound(m.bytes.len())),
-                        "alloc-refused",
-                    )},
-                    _ => {
-                        let sig = desc.split_whitespace().take(2).collect::<Vec<_>>().join(" ");
-                        (format!("c08:{}:died:{}", rd.name(), vcore::strip_digits(&sig)), format!("worker died while reading: {desc}"), "died")
-                    }
-                };
-                st.add(&job.sub, 1, (m.bytes != e.bytes) as u64);
-                st.outcome(&format!("{}|{}", rd.name(), class));
-                st.violate(order, fp, msg, || plan.case_json(idx, tier));
                 skip.insert(idx);
-                cur = committed;
+                // a refusal / CPU-limit exit flushes the partial block up to the case: continue after it
+                if committed == idx {
+                    cur = idx + 1;
+                }
             }
-            WorkerEnd::Hung { in_flight } => {
-                restarts += 1;
-                let Some(idx) = in_flight.filter(|&i| i >= committed && i < hi) else {
-                    eprintln!("MACHINERY: worker [{cur},{hi}) hung outside a case");
+            None if glitch => {
+                glitches += 1;
+                if glitches > 20 {
+                    eprintln!("MACHINERY: worker over [{cur},{hi}) keeps ending without an attributable case");
                     std::process::exit(2);
-                };
-                let (j, k, r) = plan.locate(idx);
-                let (m, ei) = plan.input(j, k);
-                let job = &plan.jobs[j];
-                let rd = job.readers[r];
-                let e = &plan.corpus[ei];
-                st.add(&job.sub, 1, (m.bytes != e.bytes) as u64);
-                st.outcome(&format!("{}|hang", rd.name()));
-                st.violate(order_key(e.bytes.len(), idx), format!("c08:{}:hang", rd.name()), format!("no result within {} s for a {}-byte input", WATCHDOG.as_secs(), m.bytes.len()), || plan.case_json(idx, tier));
-                skip.insert(idx);
-                cur = committed;
+                }
             }
+            None => {}
         }
-        if restarts > 200_000 {
+        if restarts > 500_000 {
             eprintln!("MACHINERY: too many worker restarts in [{lo},{hi})");
             std::process::exit(2);
         }
     }
     st.count("worker_restarts", restarts);
+    UnitResult { st, suspects }
+}
+
+/// Second pass over the cases that hit the short CPU limit. Per reader (= hang fingerprint) the
+/// candidates are re-run one at a time with the long limit, in report order: the first one that also
+/// exhausts the long limit confirms the class and the remaining candidates are counted as further
+/// occurrences; a candidate that completes contributes its real outcome. After three completions in a
+/// row the short limit is considered to have been hit through machine load and every remaining
+/// candidate of the class is re-run with the long limit.
+fn confirm_suspects(ctx: &Ctx, plan: &Plan, exe: &std::path::Path, mut suspects: Vec<u64>, peak: &mut u64) -> Stats {
+    let mut st = Stats::new();
+    let key = |idx: u64| {
+        let (j, k, _) = plan.locate(idx);
+        let (_, ei) = plan.input(j, k);
+        order_key(plan.corpus[ei].bytes.len(), idx)
+    };
+    suspects.sort_by_key(|&i| key(i));
+    let mut by_reader: BTreeMap<Rd, Vec<u64>> = BTreeMap::new();
+    for i in suspects {
+        let (j, _, r) = plan.locate(i);
+        by_reader.entry(plan.jobs[j].readers[r]).or_default().push(i);
+    }
+    let groups: Vec<(Rd, Vec<u64>)> = by_reader.into_iter().collect();
+    let merged = Mutex::new((Stats::new(), 0u64));
+    std::thread::scope(|s| {
+        for (rd, cands) in &groups {
+            let merged = &merged;
+            s.spawn(move || {
+                let mut st = Stats::new();
+                let mut pk = 0u64;
+                let mut confirmed = false;
+                let mut completions_in_row = 0;
+                let mut rerun_all = false;
+                for (ci, &idx) in cands.iter().enumerate() {
+                    if ctx.out_of_time() {
+                        st.cap(format!("time budget hit while re-running CPU-limit suspects of {}: {} cases left unclassified", rd.name(), cands.len() - ci));
+                        break;
+                    }
+                    if confirmed && !rerun_all {
+                        abnormal_violation(ctx, plan, exe, &mut st, idx, &Abnormal::CpuLimit { ms: CPU_LIMIT_SHORT_MS });
+                        continue;
+                    }
+                    let mut tries = 0;
+                    loop {
+                        let (s1, _, ab, glitch) = run_once(ctx, exe, idx, idx + 1, &BTreeSet::new(), CPU_LIMIT_LONG_MS, &mut pk);
+                        match ab {
+                            None if glitch && tries < 5 => {
+                                tries += 1;
+                                continue;
+                            }
+                            None if glitch => {
+                                eprintln!("MACHINERY: cannot re-run case {idx}");
+                                std::process::exit(2);
+                            }
+                            None => {
+                                st.merge(s1);
+                                completions_in_row += 1;
+                                if completions_in_row >= 3 {
+                                    rerun_all = true;
+                                }
+                                st.count("cpu_limit_hits_that_completed_on_rerun", 1);
+                            }
+                            Some((_, ab)) => {
+                                if matches!(ab, Abnormal::CpuLimit { .. } | Abnormal::WallLimit) {
+                                    confirmed = true;
+                                    completions_in_row = 0;
+                                }
+                                abnormal_violation(ctx, plan, exe, &mut st, idx, &ab);
+                            }
+                        }
+                        break;
+                    }
+                }
+                let _ = rd;
+                let mut g = merged.lock().unwrap();
+                g.0.merge(st);
+                g.1 = g.1.max(pk);
+            });
+        }
+    });
+    let (s, pk) = merged.into_inner().unwrap();
+    st.merge(s);
+    *peak = (*peak).max(pk);
     st
 }
 
@@ -514,13 +721,18 @@ fn resolve_site(ctx: &Ctx, exe: &std::path::Path, idx: u64, token: &str) -> Stri
     let tier = if ctx.quick() { "quick" } else { "thorough" };
     let args: Vec<String> = vec!["C08".into(), "--tier".into(), tier.into(), "--worker".into(), idx.to_string(), (idx + 1).to_string(), "--resolve".into()];
     let mut site: Option<String> = None;
-    let _ = run_worker(exe, &args, Some(RLIMIT_AS), Duration::from_secs(120), |l| {
-        if let Some(a) = l.strip_prefix("A ") {
-            if let Some(p) = a.find("site:") {
-                site = Some(a[p + 5..].trim().to_string());
+    for _ in 0..3 {
+        let _ = run_worker(exe, &args, Some(RLIMIT_AS), Duration::from_secs(300), |l| {
+            if let Some(a) = l.strip_prefix("A ") {
+                if let Some(p) = a.find("site:") {
+                    site = Some(a[p + 5..].trim().to_string());
+                }
             }
+        });
+        if site.is_some() {
+            break;
         }
-    });
+    }
     let Some(site) = site else {
         eprintln!("MACHINERY: could not resolve the allocation site of case {idx}");
         std::process::exit(2);
@@ -542,7 +754,8 @@ pub fn run(ctx: &Ctx) -> ! {
         let lo: u64 = arg_after(ctx, "--worker", 1).and_then(|s| s.parse().ok()).expect("worker lo");
         let hi: u64 = arg_after(ctx, "--worker", 2).and_then(|s| s.parse().ok()).expect("worker hi");
         let skip: BTreeSet<u64> = arg_after(ctx, "--skip", 1).map(|s| s.split(',').filter_map(|x| x.parse().ok()).collect()).unwrap_or_default();
-        worker(ctx, lo, hi, &skip);
+        let cpu_limit: u64 = arg_after(ctx, "--cpu-limit", 1).and_then(|s| s.parse().ok()).unwrap_or(CPU_LIMIT_LONG_MS);
+        worker(ctx, lo, hi, &skip, cpu_limit);
     }
     if ctx.has_flag("--replay-child") {
         replay_child(ctx);
@@ -565,23 +778,55 @@ pub fn run(ctx: &Ctx) -> ! {
         println!("total evaluations: {}", plan.total);
         std::process::exit(0);
     }
+    if let Some(i) = arg_after(ctx, "--describe", 1).and_then(|s| s.parse::<u64>().ok()) {
+        let mut c = plan.case_json(i, if ctx.quick() { "quick" } else { "thorough" });
+        c["input_hex"] = json!("...");
+        println!("{c}");
+        std::process::exit(0);
+    }
     if let Err(m) = corpus_selfcheck(&plan) {
         eprintln!("MACHINERY: corpus self-check failed: {m}");
         std::process::exit(2);
     }
     let exe = std::env::current_exe().expect("current_exe");
+    // optional restriction to the sub-engines whose name starts with a prefix (development aid; the
+    // evidence then says so)
+    let only = arg_after(ctx, "--only", 1);
     // units: block-aligned, small enough for dynamic balancing, large enough to amortise start-up
     let target_units = (ctx.threads as u64) * 24;
     let unit = ((plan.total / target_units.max(1)) / BLOCK + 1) * BLOCK;
-    let n_units = plan.total.div_ceil(unit);
+    let mut units: Vec<(u64, u64)> = vec![];
+    match &only {
+        None => {
+            let n_units = plan.total.div_ceil(unit);
+            for u in 0..n_units {
+                units.push((u * unit, ((u + 1) * unit).min(plan.total)));
+            }
+        }
+        Some(pref) => {
+            for (ji, j) in plan.jobs.iter().enumerate() {
+                if j.sub.starts_with(pref.as_str()) {
+                    let end = plan.jobs.get(ji + 1).map(|n| n.start).unwrap_or(plan.total);
+                    let mut lo = j.start;
+                    while lo < end {
+                        let hi = (lo + unit).min(end);
+                        units.push((lo, hi));
+                        lo = hi;
+                    }
+                }
+            }
+        }
+    }
+    let n_units = units.len() as u64;
     let next = AtomicU64::new(0);
-    let merged = Mutex::new((Stats::new(), 0u64));
+    let merged = Mutex::new((Stats::new(), 0u64, Vec::<u64>::new()));
     let capped = AtomicU64::new(0);
     std::thread::scope(|s| {
         for _ in 0..ctx.threads.max(1) {
             s.spawn(|| {
                 let mut local = Stats::new();
                 let mut peak = 0u64;
+                let mut suspects = vec![];
                 loop {
                     let u = next.fetch_add(1, Ordering::Relaxed);
                     if u >= n_units {
@@ -591,20 +836,27 @@ pub fn run(ctx: &Ctx) -> ! {
                         capped.fetch_add(1, Ordering::Relaxed);
                         continue;
                     }
-                    let lo = u * unit;
-                    let hi = ((u + 1) * unit).min(plan.total);
-                    local.merge(run_unit(ctx, &plan, &exe, lo, hi, &mut peak));
+                    let (lo, hi) = units[u as usize];
+                    let r = run_unit(ctx, &plan, &exe, lo, hi, &mut peak);
+                    local.merge(r.st);
+                    suspects.extend(r.suspects);
                 }
                 let mut g = merged.lock().unwrap();
                 g.0.merge(local);
                 g.1 = g.1.max(peak);
+                g.2.extend(suspects);
             });
         }
     });
-    let (mut st, peak) = merged.into_inner().unwrap();
+    let (mut st, mut peak, suspects) = merged.into_inner().unwrap();
+    st.count("cpu_limit_short_hits", suspects.len() as u64);
+    st.merge(confirm_suspects(ctx, &plan, &exe, suspects, &mut peak));
     let c = capped.load(Ordering::Relaxed);
     if c > 0 {
-        st.cap(format!("time budget hit: {c} of {n_units} work units ({} evaluations each) not run", unit));
+        st.cap(format!("time budget hit: {c} of {n_units} work units (up to {unit} evaluations each) not run"));
+    }
+    if let Some(pref) = &only {
+        st.cap(format!("restricted by --only {pref}"));
     }
     // coverage extras
     let mut per_fmt: BTreeMap<&str, (usize, usize, usize)> = BTreeMap::new();
@@ -618,15 +870,16 @@ pub fn run(ctx: &Ctx) -> ! {
     st.extra.insert("corpus_entries".into(), json!(plan.corpus.iter().map(|e| json!({"name": e.name, "len": e.bytes.len(), "readers": e.readers.iter().map(|r| r.name()).collect::<Vec<_>>()})).collect::<Vec<_>>()));
     st.extra.insert("planned_evaluations".into(), json!(plan.total));
     st.extra.insert("max_peak_alloc_bytes_of_completed_reads".into(), json!(peak));
-    st.extra.insert("alloc_bound".into(), json!("max(64 MiB, 4096 x input length) bytes held by one read"));
+    st.extra.insert("alloc_bound".into(), json!("max(64 MiB, 4096 x input length) + 1 MiB held by one read"));
+    st.extra.insert("cpu_limits_ms".into(), json!({"sweep": CPU_LIMIT_SHORT_MS, "confirmation": CPU_LIMIT_LONG_MS, "wall_watchdog_s": WALL_WATCHDOG.as_secs()}));
     st.extra.insert("violation_occurrences".into(), json!(st.viol_counts));
     let level = Level {
         category: "fault_enumeration",
         rule: "an evaluation is one (corpus entry, mutation, reader entry point) descriptor; distinct by construction; non-trivial iff the mutated bytes differ from the pristine corpus entry (different descriptors may still produce identical bytes, e.g. a window overwrite that equals a bit flip)".into(),
         assumptions: vec![
-            "corpus inputs are 1..1500 bytes produced by the library's own writers; inputs larger than the corpus and multi-field coordinated corruptions other than splices and length windows are not explored".into(),
-            "each evaluation runs in a worker subprocess of the engine (RLIMIT_AS 4 GiB, 20 s watchdog per case); a refused allocation ends the worker and is attributed to the case in flight".into(),
-            "allocation is metered per reading thread; the readers under test do not spawn threads".into(),
+            "corpus inputs are 4..1500 bytes produced by the library's own writers; inputs larger than the corpus and multi-field coordinated corruptions other than splices and length windows are not explored".into(),
+            "each evaluation runs in a worker subprocess of the engine (RLIMIT_AS 4 GiB); a refused allocation or an exhausted CPU-time limit ends the worker and is attributed to the case in flight; termination = a result within the CPU-time limit (0.5 s in the sweep; every case that hits it is set aside and the representative of each reader is re-run alone with a 10 s limit before the class is reported)".into(),
+            "allocation is metered per reading thread through the Rust global allocator; the readers under test do not spawn threads; memory obtained by C codec libraries (zstd, bzip2, xz) directly from malloc is only limited by RLIMIT_AS".into(),
             "validity oracle = RecordBatch/schema agreement + ArrayData::validate_full + union type-id/offset check; semantic equality with the pristine decode is not required (any valid data is acceptable)".into(),
         ],
         exhaustive_space: format!(
@@ -655,6 +908,7 @@ fn case_entry<'a>(plan: &'a Plan, case: &Value) -> Option<(&'a Entry, Rd)> {
 
 fn replay_child(ctx: &Ctx) -> ! {
     meter::RESOLVE.store(true, Ordering::Relaxed);
+    spawn_cpu_monitor(CPU_LIMIT_LONG_MS);
     let path = arg_after(ctx, "--replay-child", 1).expect("replay file");
     let txt = std::fs::read_to_string(&path).expect("read replay");
     let v: Value = vcore::serde_json::from_str(&txt).expect("replay json");
@@ -679,16 +933,19 @@ fn replay(ctx: &Ctx) -> ! {
     let path = ctx.replay.clone().unwrap();
     let case = vcore::load_replay(ctx).unwrap();
     println!("replay case: entry={} reader={} mutation={} input_len={}", case["entry"], case["reader"], case["mutation"], case["input_len"]);
-    println!("expectation: Err, or Ok with valid arrays; no panic; result within {} s; <= {} bytes held", WATCHDOG.as_secs(), alloc_bound(case["input_len"].as_u64().unwrap_or(0) as usize));
+    println!("expectation: Err, or Ok with valid arrays; no panic; result within {} ms of CPU time; <= {} bytes held", CPU_LIMIT_LONG_MS, alloc_bound(case["input_len"].as_u64().unwrap_or(0) as usize));
     let exe = std::env::current_exe().expect("current_exe");
     let args: Vec<String> = vec!["C08".into(), "--replay-child".into(), path.display().to_string()];
     let mut res: Option<Value> = None;
     let mut alloc: Option<String> = None;
-    let end = run_worker(&exe, &args, Some(RLIMIT_AS), WATCHDOG, |l| {
+    let mut cpu: Option<String> = None;
+    let end = run_worker(&exe, &args, Some(RLIMIT_AS), WALL_WATCHDOG, |l| {
         if let Some(j) = l.strip_prefix("R ") {
             res = vcore::serde_json::from_str(j).ok();
         } else if let Some(a) = l.strip_prefix("A ") {
             alloc = Some(a.to_string());
+        } else if let Some(h) = l.strip_prefix("H ") {
+            cpu = Some(h.to_string());
         }
     });
     let bad = match end {
@@ -707,14 +964,15 @@ fn replay(ctx: &Ctx) -> ! {
             }
         },
         WorkerEnd::Died { desc, .. } => {
-            match alloc {
-                Some(a) => println!("replay outcome: ALLOCATION REFUSED (idx requested held site) = {a}"),
-                None => println!("replay outcome: reader process DIED: {desc}"),
+            match (alloc, cpu) {
+                (Some(a), _) => println!("replay outcome: ALLOCATION REFUSED (idx requested held site) = {a}"),
+                (_, Some(h)) => println!("replay outcome: HANG, CPU-time limit exhausted (idx cpu_ms) = {h}"),
+                _ => println!("replay outcome: reader process DIED: {desc}"),
             }
             true
         }
         WorkerEnd::Hung { .. } => {
-            println!("replay outcome: HANG (no result within {} s)", WATCHDOG.as_secs());
+            println!("replay outcome: HANG (no result within {} s)", WALL_WATCHDOG.as_secs());
             true
         }
     };
